@@ -249,3 +249,51 @@ int_binop_all!(Add, add, AddSpecImpl, obeys_add_spec, add_req, add_spec, |a, b| 
 int_binop_all!(Sub, sub, SubSpecImpl, obeys_sub_spec, sub_req, sub_spec, |a, b| a - b);
 int_binop_all!(Mul, mul, MulSpecImpl, obeys_mul_spec, mul_req, mul_spec, |a, b| a * b);
 int_binop_all!(Rem, rem, RemSpecImpl, obeys_rem_spec, rem_req, rem_spec, |a, b| a % b);
+
+// ---- number-theory axioms (A-rug) -----------------------------------------------------------------------
+/// RSA / Euler: for N = p*q (distinct primes), gcd(x, N) = 1 and d = e^{-1} mod (p-1)(q-1):  (x^d)^e = x (mod N)
+pub proof fn ax_euler_rsa(x: int, e: int, p: int, q: int)
+    requires
+        is_prime(p), is_prime(q), p != q,
+        igcd(x, p * q) == 1,
+        invertible(e, (p - 1) * (q - 1)),
+    ensures
+        pow_mod(pow_mod(x, inv_mod(e, (p - 1) * (q - 1)), p * q), e, p * q) == x % (p * q),
+{ admit(); }
+
+/// exponent laws modulo n (n > 0; negative exponents when the base is invertible)
+pub proof fn ax_pow_mod_add(b: int, e1: int, e2: int, n: int)
+    requires n > 0, (e1 >= 0 && e2 >= 0) || invertible(b, n),
+    ensures pow_mod(b, e1 + e2, n) == (pow_mod(b, e1, n) * pow_mod(b, e2, n)) % n,
+{ admit(); }
+
+pub proof fn ax_pow_mod_mul(b: int, e1: int, e2: int, n: int)
+    requires n > 0, (e1 >= 0 && e2 >= 0) || invertible(b, n),
+    ensures pow_mod(pow_mod(b, e1, n), e2, n) == pow_mod(b, e1 * e2, n),
+{ admit(); }
+
+pub proof fn ax_pow_mod_base_mod(b: int, e: int, n: int)
+    requires n > 0,
+    ensures pow_mod(b % n, e, n) == pow_mod(b, e, n),
+{ admit(); }
+
+pub proof fn ax_pow_mod_one(b: int, n: int)
+    requires n > 0,
+    ensures pow_mod(b, 1, n) == b % n, pow_mod(b, 0, n) == 1int % n,
+{ admit(); }
+
+pub proof fn ax_pow_mod_range(b: int, e: int, n: int)
+    requires n > 0,
+    ensures 0 <= pow_mod(b, e, n) < n,
+{ admit(); }
+
+/// a product of units is a unit
+pub proof fn ax_gcd_mul(a: int, b: int, n: int)
+    requires igcd(a, n) == 1, igcd(b, n) == 1,
+    ensures igcd(a * b, n) == 1,
+{ admit(); }
+
+pub proof fn ax_gcd_pow_mod(b: int, e: int, n: int)
+    requires n > 0, igcd(b, n) == 1,
+    ensures igcd(pow_mod(b, e, n), n) == 1,
+{ admit(); }
